@@ -16,5 +16,7 @@ func controlsC10() []Control {
 		{Name: "PlayerCall releases the engine lock early", Expect: "R1", Mutate: replaceIn("(*tableEngine).PlayerCall", "defer te.lock.Unlock()", "te.lock.Unlock()", 0)},
 		{Name: "status playing before the hand started", Expect: "R8", Mutate: replaceIn("(*tableEngine).startGame", "\t// start game\n\tif _, err := te.game.Start(); err != nil {\n\t\treturn err\n\t}\n\n\tte.table.State.Status = TableStateStatus_TableGamePlaying\n", "\tte.table.State.Status = TableStateStatus_TableGamePlaying\n\tif _, err := te.game.Start(); err != nil {\n\t\treturn err\n\t}\n", 0)},
 		{Name: "last action never cleared at round close", Expect: "R9", Mutate: replaceIn("(*tableEngine).updateGameState", "if event == pokerface.GameEvent_RoundClosed {", "if event != pokerface.GameEvent_RoundClosed {", 0)},
+		{Name: "published action carries round and hand id only when no hand exists", Expect: "R7", Mutate: replaceIn("(*tableEngine).createPlayerGameAction", "if te.table.State.GameState != nil {", "if te.table.State.GameState == nil {", 0)},
+		{Name: "published action carries the seat only for out-of-range indexes", Expect: "R7", Mutate: replaceIn("(*tableEngine).createPlayerGameAction", "if playerIdx < len(te.table.State.PlayerStates) {", "if playerIdx >= len(te.table.State.PlayerStates) {", 0)},
 	}
 }
